@@ -204,6 +204,8 @@ where
                 // producer that queues another frame while the codec is being
                 // flushed will then take and wake this task.
                 if status == BufferStatus::Complete {
+                    #[cfg(feature = "verif-hooks")]
+                    crate::verif::ev("conn.task_register", || vec![]);
                     me.actions.task = Some(cx.waker().clone());
                 }
 
@@ -659,6 +661,8 @@ impl Inner {
                 });
             }
 
+            #[cfg(feature = "verif-hooks")]
+            crate::verif::ev("budget.result", || vec![res.is_ok() as i64]);
             // Any stream error after receiving a DATA frame means
             // we won't give the data to the user, and so they can't
             // release the capacity. We do it automatically.
@@ -933,11 +937,19 @@ impl Inner {
         };
         // If we're successful, push the headers and stream...
         if let Some(child) = child_key {
+            #[cfg(feature = "verif-hooks")]
+            crate::verif::ev("streams.ppp_push", || {
+                self.store[parent_key].verif_life(parent_key.verif_index())
+            });
             let mut ppp = self.store[parent_key].pending_push_promises.take();
             ppp.push(&mut self.store.resolve(child));
 
             let parent = &mut self.store.resolve(parent_key);
             parent.pending_push_promises = ppp;
+            #[cfg(feature = "verif-hooks")]
+            crate::verif::ev("inner.push_queued", || {
+                vec![parent.verif_serial, u32::from(parent.id) as i64]
+            });
             parent.notify_push();
         };
 
@@ -1156,6 +1168,10 @@ where
 
     pub fn has_streams_or_other_references(&self) -> bool {
         let me = self.inner.lock().unwrap();
+        #[cfg(feature = "verif-hooks")]
+        crate::verif::ev("streams.has_refs", || {
+            vec![me.counts.has_streams() as i64, me.refs as i64]
+        });
         me.counts.has_streams() || me.refs > 1
     }
 
@@ -1172,6 +1188,10 @@ where
     P: Peer,
 {
     fn clone(&self) -> Self {
+        #[cfg(feature = "verif-hooks")]
+        crate::verif::ev("streams.clone", || {
+            vec![self.inner.lock().unwrap().refs as i64]
+        });
         self.inner.lock().unwrap().refs += 1;
         Streams {
             inner: self.inner.clone(),
@@ -1187,8 +1207,18 @@ where
 {
     fn drop(&mut self) {
         if let Ok(mut inner) = self.inner.lock() {
+            #[cfg(feature = "verif-hooks")]
+            crate::verif::ev("streams.drop", || vec![inner.refs as i64]);
             inner.refs -= 1;
             if inner.refs == 1 {
+                #[cfg(feature = "verif-hooks")]
+                crate::verif::ev("streams.wake_conn", || {
+                    vec![inner.actions.task.is_some() as i64]
+                });
+                #[cfg(feature = "verif-hooks")]
+                crate::verif::ev("conn.task_wake", || {
+                    vec![6, inner.actions.task.is_some() as i64]
+                });
                 if let Some(task) = inner.actions.task.take() {
                     task.wake();
                 }
@@ -1420,6 +1450,10 @@ impl<B> StreamRef<B> {
         // Lowering a reservation can hand the released capacity to another
         // stream that has data buffered; the connection task has to be told
         // that there is something to send.
+        #[cfg(feature = "verif-hooks")]
+        crate::verif::ev("conn.task_wake", || {
+            vec![8, me.actions.task.is_some() as i64]
+        });
         if let Some(task) = me.actions.task.take() {
             task.wake();
         }
@@ -1481,6 +1515,10 @@ impl<B> Clone for StreamRef<B> {
 
 impl OpaqueStreamRef {
     fn new(inner: Arc<Mutex<Inner>>, stream: &mut store::Ptr) -> OpaqueStreamRef {
+        #[cfg(feature = "verif-hooks")]
+        crate::verif::ev("streams.ref_new", || {
+            stream.verif_life(stream.key().verif_index())
+        });
         stream.ref_inc();
         OpaqueStreamRef {
             inner,
@@ -1655,6 +1693,12 @@ impl Clone for OpaqueStreamRef {
     fn clone(&self) -> Self {
         // Increment the ref count
         let mut inner = self.inner.lock().unwrap();
+        #[cfg(feature = "verif-hooks")]
+        crate::verif::ev("streams.ref_clone", || {
+            let mut v = inner.store[self.key].verif_life(self.key.verif_index());
+            v.push(inner.refs as i64);
+            v
+        });
         inner.store.resolve(self.key).ref_inc();
         inner.refs += 1;
 
@@ -1688,6 +1732,13 @@ fn drop_stream_ref(inner: &Mutex<Inner>, key: store::Key) {
     let me = &mut *me;
     me.refs -= 1;
     let mut stream = me.store.resolve(key);
+    #[cfg(feature = "verif-hooks")]
+    crate::verif::ev("streams.ref_drop", || {
+        let mut v = stream.verif_life(key.verif_index());
+        v.push(me.refs as i64);
+        v.push(stream.is_closed() as i64);
+        v
+    });
 
     tracing::trace!("drop_stream_ref; stream={:?}", stream);
 
@@ -1701,6 +1752,10 @@ fn drop_stream_ref(inner: &Mutex<Inner>, key: store::Key) {
     // of canceling the stream), we should notify the task
     // (connection) so that it can close properly
     if stream.ref_count == 0 && stream.is_closed() {
+        #[cfg(feature = "verif-hooks")]
+        crate::verif::ev("streams.wake_conn", || vec![actions.task.is_some() as i64]);
+        #[cfg(feature = "verif-hooks")]
+        crate::verif::ev("conn.task_wake", || vec![7, actions.task.is_some() as i64]);
         if let Some(task) = actions.task.take() {
             task.wake();
         }
@@ -1728,7 +1783,17 @@ fn drop_stream_ref(inner: &Mutex<Inner>, key: store::Key) {
 
     // Like `Streams::drop`: if only the connection itself still references
     // the shared state, it has to get a chance to notice and shut down.
+    #[cfg(feature = "verif-hooks")]
+    crate::verif::ev("streams.ref_drop_end", || vec![me.refs as i64]);
     if me.refs == 1 {
+        #[cfg(feature = "verif-hooks")]
+        crate::verif::ev("streams.wake_conn", || {
+            vec![me.actions.task.is_some() as i64]
+        });
+        #[cfg(feature = "verif-hooks")]
+        crate::verif::ev("conn.task_wake", || {
+            vec![9, me.actions.task.is_some() as i64]
+        });
         if let Some(task) = me.actions.task.take() {
             task.wake();
         }
@@ -1806,6 +1871,15 @@ impl Actions {
                 &mut self.task,
             );
             self.recv.enqueue_reset_expiration(stream, counts);
+            #[cfg(feature = "verif-hooks")]
+            crate::verif::ev("recv.event", || {
+                vec![
+                    stream.verif_serial,
+                    u32::from(stream.id) as i64,
+                    7,
+                    stream.state.is_recv_end_stream() as i64,
+                ]
+            });
             // if a RecvStream is parked, ensure it's notified
             stream.notify_recv();
 
@@ -1830,6 +1904,15 @@ impl Actions {
                 self.send
                     .send_reset(reason, initiator, buffer, stream, counts, &mut self.task);
                 self.recv.enqueue_reset_expiration(stream, counts);
+                #[cfg(feature = "verif-hooks")]
+                crate::verif::ev("recv.event", || {
+                    vec![
+                        stream.verif_serial,
+                        u32::from(stream.id) as i64,
+                        7,
+                        stream.state.is_recv_end_stream() as i64,
+                    ]
+                });
                 // if a RecvStream is parked, ensure it's notified
                 stream.notify_recv();
                 Ok(())
